@@ -14,7 +14,7 @@ Definition early (c : N) : bool :=
   || (c =? 10) || (c =? 59) || (c =? 38) || (c =? 124) || (c =? 42) || (c =? 43) || (c =? 183) || (c =? 8901)
   || (c =? 215) || (c =? 47) || (c =? 247) || (c =? 94) || (c =? 44) || (c =? 10869) || (c =? 61) || (c =? 64)
   || (c =? 8594) || (c =? 10142) || (c =? 45) || (c =? 8722) || (c =? 8800) || (c =? 33) || (c =? 8315)
-  || is_exponent_char c || (c =? 34) || (c =? 8230).
+  || is_exponent_char c || (c =? 34) || (c =? 58) || (c =? 8230).
 
 Section Ident.
   Variables xid_start xid_continue : N -> bool.
@@ -29,11 +29,11 @@ Section Ident.
   Definition word_token (w : str) : token :=
     match keyword_of w with Some k => k | None => TIdent w end.
 
-  Theorem lex_ident_complete : forall c body rest d,
+  Theorem lex_ident_complete : forall c body rest d la,
     early c = false -> istart c = true -> forallb icont body = true -> ident_stop rest = true ->
-    sst d (c :: body ++ rest) = LOk (Some (word_token (c :: body)), rest, d).
+    sst d la (c :: body ++ rest) = LOk (Some (word_token (c :: body)), rest, d).
   Proof.
-    intros c body rest d E S B St. unfold ident_stop in St. apply andb_prop in St. destruct St as [St1 St2].
+    intros c body rest d la E S B St. unfold ident_stop in St. apply andb_prop in St. destruct St as [St1 St2].
     apply negb_true_iff in St1. apply negb_true_iff in St2.
     unfold early in E.
     assert (E48 : (c =? 48) = false).
@@ -46,7 +46,7 @@ Section Ident.
     unfold word_token. destruct (keyword_of (c :: body)); reflexivity.
   Qed.
 
-  Definition is_ident_res (x : lres (option token * str * nat)) : bool :=
+  Definition is_ident_res (x : lres (option token * str * list bool)) : bool :=
     match x with LOk (Some (TIdent _), _, _) => true | _ => false end.
 
   Lemma keyword_not_ident : forall s, match keyword_of s with Some (TIdent _) => false | _ => true end = true.
@@ -63,12 +63,12 @@ Section Ident.
 
   (* soundness: an Identifier token is a start character followed by continue characters, it is not
      a keyword, and nothing else was consumed *)
-  Theorem lex_ident_sound : forall d cs l r d',
-    sst d cs = LOk (Some (TIdent l), r, d') ->
+  Theorem lex_ident_sound : forall d la cs l r d',
+    sst d la cs = LOk (Some (TIdent l), r, d') ->
     exists c body, l = c :: body /\ istart c = true /\ forallb icont body = true
                    /\ keyword_of l = None /\ cs = l ++ r /\ peek_is icont r = false /\ d' = d.
   Proof.
-    intros d cs l r d' H. destruct cs as [|c r0]; [discriminate|].
+    intros d la cs l r d' H. destruct cs as [|c r0]; [discriminate|].
     unfold scan_single_token in H.
     repeat match type of H with
            | (if ?b then _ else _) = _ =>
